@@ -44,7 +44,7 @@ PROPS["C14"] = {
              "manner (client shutdown, carrier reset, garbage frame, partition until the multiplexer keep-alive gives up, or not at all) and compares with idle; "
              "footprint = goroutines of the bubble grouped by creation site (harness excluded) + open simulated sockets/listeners; non-trivial = both batches "
              "completed; distinct = schedule shapes"),
-    "probes": ["logical_connections", "session_end_checked", "fault_carrier_reset", "fault_carrier_timeout", "fault_partition", "fault_garbage_frame", "end_client_shutdown"],
+    "probes": ["logical_connections", "session_end_checked", "fault_carrier_reset", "fault_carrier_timeout", "fault_partition", "fault_garbage_frame", "end_client_shutdown", "end_server_closes"],
     "technique": "deterministic simulation: histories of N and 2N connections and fault-ended sessions, resource-ledger oracle + busy-loop detector",
     "level_text": ("Seeded exploration of connection histories and session endings. The oracle is a resource ledger taken at quiescent points after a drain of 150 "
                    "simulated seconds: constant (not linear) in the number of past connections, back to idle after the session ended, and no goroutine that emits "
@@ -128,9 +128,9 @@ PROPS["C16"] = {
 PROPS["C05"] = {
     "level": "fault_enumeration",
     "exhaustive": True,
-    "cells": 291,
-    "rule": ("the complete matrix {server certificate: trusted+matching, trusted+wrong host, untrusted CA, expired} x {client --insecure on/off} x {client certificate: none, server's CA, foreign CA} x "
-             "{requireClientCert on/off} x carrier {TLS socket, HTTPS websocket, StartTLS over socket / websocket / UDP(KCP) / DNS} (288 cells) plus {equal, different, absent} UDP secrets is "
+    "cells": 387,
+    "rule": ("the complete matrix {server certificate: trusted+matching, trusted+wrong host, untrusted CA, expired} x {client --insecure on/off} x {client certificate: none, server's CA, foreign CA, impostor CA (same subject name as the server's CA, other key - the case in which a stock TLS client does send the certificate)} x "
+             "{requireClientCert on/off} x carrier {TLS socket, HTTPS websocket, StartTLS over socket / websocket / UDP(KCP) / DNS} (384 cells) plus {equal, different, absent} UDP secrets is "
              "enumerated by run index; per run the upstream is named by host name or IP literal (with a certificate naming exactly that), an unreachable decoy upstream naming another host may be listed first (none / tcp+tls / wss / tcp), and delivery segmentation is sampled; non-trivial = the "
              "cell's outcome matched the admit/reject table; distinct = schedule shapes"),
     "probes": ["admitted_as_expected", "rejected_as_expected"],
@@ -139,8 +139,8 @@ PROPS["C05"] = {
                    "(no requirement or client certificate of the server's CA); UDP admits iff secrets equal. On reject no target may accept a connection or receive a byte; on admit a 64-byte exchange must complete."),
     "level_note": "PKI generated deterministically at worker start for the simulated epoch 2000-01-01; 'expired' is produced by the simulated clock. The documented stdio+tls exception is not part of the matrix.",
     "tiers": {
-        "quick": {"runs": 291 * 6, "chunk": 97, "shrink_s": 30},
-        "thorough": {"runs": 291 * 40, "chunk": 291, "shrink_s": 90},
+        "quick": {"runs": 387 * 5, "chunk": 129, "shrink_s": 30},
+        "thorough": {"runs": 387 * 40, "chunk": 387, "shrink_s": 90},
     },
 }
 
